@@ -15,6 +15,7 @@ fresh response is delivered in two reader steps whatever came before.
 import FV.Model.Registry
 import FV.Proofs.Registry
 import FV.Generated.Params
+import FV.Generated.Locks
 
 namespace FV.C06
 open FV.Reg
@@ -106,5 +107,14 @@ theorem c06_counterexample_blocking_send :
 example : ∃ s, Reachable 1 false [3, 4] s ∧ s.reader = .idle ∧
     s.callers[1]? = some ⟨4, .waiting, []⟩ :=
   ⟨_, ⟨[.register 0, .register 1, .readerLookup ⟨3, 0⟩, .readerSend, .readerLookup ⟨3, 1⟩, .readerSend], rfl⟩, rfl, rfl⟩
+
+/-- **Lock discipline behind the model's atomic steps** (registry, adapter lifecycle lock, framed reader), decided by the kernel on facts
+REGENERATED from lib/go's source on every check (harness/locks → FV/Generated/Locks.lean): no function
+calls, while it holds one of these mutexes, anything that (transitively) acquires the same mutex, no
+lexical re-lock, and every path out of a function releases what the function locked. This is what makes a
+critical section ONE step of the model and rules out the self-deadlocks (a second RLock behind a queued
+writer, SendError under SendReply's lock) and leaked locks that would wedge every later request. -/
+theorem c06_lock_discipline :
+    FV.Locks.ok [1, 2, 3] FV.Generated.Locks.mutexTags FV.Generated.Locks.facts = true := by decide +kernel
 
 end FV.C06
